@@ -123,6 +123,19 @@ def check_copy(p, res):
         return ("C09.placement", "copy-in-source-buffer", "")
     if p.dest.split(":")[0] == "same" and p.copy._buffer is not p.sb:
         return ("C09.placement", "copy-not-in-requested-buffer", "")
+    # nothing the copy's handle holds (cached tables, arrays) may be a window onto the source's storage
+    try:
+        sbuf = p.sb.buffer
+        smem = np.frombuffer(sbuf, dtype="int8") if not isinstance(sbuf, np.ndarray) else sbuf
+        slo, shi = int(p.src._offset), int(p.src._offset) + hand.size_of(p.src)
+        for _, ct, ch in hand.handles(t, p.copy.get() if (t[0] == "U" and p.copy.get() is not None) else p.copy) if t[0] != "U" or p.copy.get() is not None else []:
+            for an, av in vars(ch).items():
+                if isinstance(av, np.ndarray) and av.size and np.shares_memory(av, smem):
+                    a0 = av.__array_interface__["data"][0] - smem.__array_interface__["data"][0]
+                    if p.copy._buffer is not p.sb or slo <= a0 < shi:
+                        return ("C09.disjoint", "handle-aliases-source-storage", "attribute %s of the copy's handle is a view onto the source's bytes at +%d" % (an, a0))
+    except Exception as e:
+        return ("C09.disjoint", "handle-inspection-raises:" + common.exc_failure(e), repr(e))
     try:
         es, ec = extents(t, p.src), extents(t, p.copy)
     except Exception as e:
